@@ -117,7 +117,7 @@ func TestC17(t *testing.T) {
 	for i := 0; i < mon.Pick(90, 25000); i++ {
 		targets = append(targets, CustomTarget(i))
 	}
-	targets = append(targets, NoShareTargets()...) // no usable share in the first hello: every TLS 1.3 server answers with a HelloRetryRequest
+	targets = append(targets, NoShareTargets()...)                                 // no usable share in the first hello: every TLS 1.3 server answers with a HelloRetryRequest
 	cookieSizes := []int{0, 1, 32, 254, 255, 256, 257, 510, 511, 512, 1000, 20000} // incl. the sizes around multiples of 256: one- vs two-byte length boundaries
 	type job struct {
 		t      Target
@@ -320,6 +320,84 @@ func TestC17(t *testing.T) {
 		runJob(i)
 	}
 	r.Floor("completed_after_hrr_with_interloper_on_shared_spec", 8)
+	// QUIC: the same rule for the hellos of UQUICConn (quic_transport_parameters with GREASE
+	// parameters and a GREASE version in version_information stay as they were sent first)
+	quicHRR := 0
+	for i := 0; i < mon.Pick(60, 1500); i++ {
+		rg := Sub("C17quic", i)
+		spec, _ := GenSpec(rg, GenOpts{QUIC: true, ForHandshake: true})
+		for _, e := range spec.Extensions {
+			if tp, ok := e.(*tls.QUICTransportParametersExtension); ok {
+				tp.TransportParameters = append(tp.TransportParameters,
+					&tls.VersionInformation{ChoosenVersion: tls.VERSION_1, AvailableVersions: []uint32{tls.VERSION_GREASE, tls.VERSION_1, tls.VERSION_GREASE}},
+					&tls.GREASETransportParameter{Length: uint16(rg.Intn(12))})
+			}
+		}
+		var listed, shared []tls.CurveID
+		for _, e := range spec.Extensions {
+			switch v := e.(type) {
+			case *tls.SupportedCurvesExtension:
+				listed = v.Curves
+			case *tls.KeyShareExtension:
+				for _, k := range v.KeyShares {
+					shared = append(shared, k.Group)
+				}
+			}
+		}
+		var g tls.CurveID
+		for _, l := range listed {
+			has := false
+			for _, k := range shared {
+				if k == l {
+					has = true
+				}
+			}
+			if !has && (l == tls.X25519 || l == tls.CurveP256 || l == tls.CurveP384 || l == tls.CurveP521) {
+				g = l
+			}
+		}
+		if g == 0 {
+			continue
+		}
+		ccfg := &tls.Config{ServerName: "example.test", RootCAs: peer.Fix().CA.Pool, Time: peer.FixedTime, MinVersion: tls.VersionTLS13, NextProtos: []string{"h3"}}
+		scfg := peer.ServerConfig()
+		scfg.MinVersion = tls.VersionTLS13
+		scfg.NextProtos = []string{"h3"}
+		scfg.CurvePreferences = []tls.CurveID{g}
+		run := driveQUIC(rg, ccfg, spec, scfg, -1, rg.Intn(2) == 0, quicOpts{})
+		if run.hang != "" || !run.completed {
+			continue
+		}
+		var hellos [][]byte
+		data := run.cli.crypto[tls.QUICEncryptionLevelInitial]
+		for len(data) >= 4 {
+			n := int(data[1])<<16 | int(data[2])<<8 | int(data[3])
+			if len(data) < 4+n {
+				break
+			}
+			if data[0] == 1 {
+				hellos = append(hellos, data[:4+n])
+			}
+			data = data[4+n:]
+		}
+		if len(hellos) != 2 {
+			continue
+		}
+		ch1, e1 := wire.ParseClientHello(hellos[0])
+		ch2, e2 := wire.ParseClientHello(hellos[1])
+		if e1 != nil || e2 != nil {
+			r.Violation(map[string]string{"kind": "unparseable_hello", "target": "quic"}, fmt.Sprintf("%v / %v", e1, e2), nil)
+			continue
+		}
+		for _, p := range compareRetryHellos(ch1, ch2, uint16(g), nil, false) {
+			r.Violation(map[string]string{"kind": "retry_hello_differs", "target": "quic", "what": firstWords(p, 3)},
+				fmt.Sprintf("QUIC (HRR %#04x): %s", uint16(g), p), map[string]any{"case": i, "ch1": mon.Hex(hellos[0]), "ch2": mon.Hex(hellos[1])})
+		}
+		quicHRR++
+		r.Case(fmt.Sprintf("quic|%04x", uint16(g)), true)
+	}
+	r.Count("quic_retry_hello_pairs", int64(quicHRR))
+	r.Floor("quic_retry_hello_pairs", 10)
 	r.Count("families_with_valid_hrr", int64(len(validByFamily)))
 	r.Floor("completed_after_hrr", 100)
 	r.Floor("invalid_hrr_cases", 30)
